@@ -758,3 +758,57 @@ def _ancestors(ctx, fn, node):
         out.append(cur)
         cur = pm.get(id(cur))
     return out
+
+
+# ------------------------------------------------------ per-iteration paths
+def iteration_paths(ctx, fn, loop, avoid=(), kinds=NORMAL_KINDS, cap=2000, with_path=False):
+    """Paths through ONE iteration of `loop` (ast.For / ast.While) that avoid every node of `avoid`.
+
+    Yields (end, conds, last_node): end is 'next' (back at the loop head), 'leave' (control left the loop
+    body: break / return / exit) ; conds is the set of (form, polarity) of the branch conditions taken
+    (both operand orders).  A path that meets a node of `avoid` is not reported."""
+    cfg = ctx.cfg(fn)
+    heads = [n for n in cfg.nodes if n.kind in ("for", "loop_head") and n.ast is loop]
+    if not heads:
+        raise AnalysisError("iteration_paths", f"loop at {fn.loc(loop)} has no CFG head")
+    head = heads[0]
+    blocked = {n.id for n in avoid}
+
+    def inside(n):
+        st = n.stmt if n.stmt is not None else n.ast
+        if st is None:
+            return False
+        if st is loop:
+            return n.kind == "test"          # the while-condition
+        return any(l is loop for l in ctx.enclosing(fn, st, (ast.For, ast.While, ast.AsyncFor)))
+
+    count = 0
+    first = [(d, k, c) for d, k, c in head.succ if k in kinds and k != "done"]
+    stack = [(d, [(head, k, c)], {head.id}) for d, k, c in first]
+    while stack:
+        n, path, seen = stack.pop()
+        if n.id in blocked:
+            continue
+        end = None
+        if n is head:
+            end = "next"
+        elif not inside(n):
+            end = "leave"
+        if end:
+            count += 1
+            if count > cap:
+                raise AnalysisError("iteration_paths", f"more than {cap} iteration paths in {fn.short}")
+            conds = set()
+            for m, k, c in path:
+                if k in ("T", "F") and c is not None:
+                    conds |= both_orders([norm(ctx, fn, c, None, pol=(k == "T"))])
+            if with_path:
+                yield end, conds, path[-1][0], path + [(n, None, None)]
+            else:
+                yield end, conds, path[-1][0]
+            continue
+        if n.id in seen:
+            continue
+        for d, k, c in n.succ:
+            if k in kinds:
+                stack.append((d, path + [(n, k, c)], seen | {n.id}))
